@@ -954,7 +954,9 @@ def emit_wrappers(em, target):
                 if not m:
                     raise ExtractError("E18: %s::%s in %s is not a lock-and-forward wrapper" % (ty, f.name, comp))
                 rest = body[m.end():].strip()
-                cm = re.match(r"^(self|Self|[A-Z][A-Za-z0-9_]*)(\.|::)([a-z_][a-z0-9_]*)\((.*)\)$", rest, re.S)
+                # receiver: self / Self / a type / a parameter (a wrapper that forwards through another value is emitted as
+                # written and then fails its obligation instead of being unextractable)
+                cm = re.match(r"^([A-Za-z_][A-Za-z0-9_]*)(\.|::)([a-z_][a-z0-9_]*)\((.*)\)$", rest, re.S)
                 if not cm or "&*provider" not in cm.group(4):
                     raise ExtractError("E18: %s::%s forwards with an unsupported expression: %r" % (ty, f.name, rest[:80]))
                 callee = cm.group(3)
